@@ -11,29 +11,14 @@ package main
 import (
 	"fmt"
 	"runtime"
-	"strings"
 
 	"github.com/gocql/gocql"
 	"gocqlverif/c04lib"
 	"gocqlverif/hlib"
 )
 
-// finding ids by crash site (tools/props/C05.findings.json); the trigger of each is "a panic raised in
-// that function of the unchanged tree while decoding received bytes through the named entry point"
-var findingOf = map[string]string{
-	"CInetSlice":   "inet-short",
-	"CPkeyMake":    "prepared-pk-count-negative",
-	"CScanPanic":   "scan-rows-shorter-than-declared",
-	"CScanDest":    "scan-empty-tuple-column",
-	"CTupleField":  "tuple-field-longer-than-value",
-	"CScannerIdx":  "scanner-tuple-column-offset",
-	"CListNeg":     "list-length-negative",
-	"CDateShort":   "date-shorter-than-4-bytes",
-	"CMapKey":      "rowdata-map-key",
-	"CTypeIdx":     "typestring-index-past-end",
-	"CTypeParams":  "typestring-missing-parameter",
-	"CTypeNilName": "typestring-unnamed-collection",
-}
+// Since the fix phase no C05 finding is open: every panic, whatever function raises it, is a violation.
+var findingOf = map[string]string{}
 
 type harness struct {
 	o      *hlib.Out
@@ -52,35 +37,6 @@ func (h *harness) sample() bool {
 func (h *harness) reportPanic(idx int, entry string, p c04lib.Panic, input interface{}) {
 	h.panics[p.Site+" in "+p.Func]++
 	fid := findingOf[p.Site]
-	// the known findings are tied to the function that raises them and to the kind of panic
-	switch p.Site {
-	case "CInetSlice", "CTupleField":
-		if !strings.Contains(p.Value, "slice bounds out of range") {
-			fid = ""
-		}
-	case "CPkeyMake":
-		if !strings.Contains(p.Value, "makeslice: len out of range") {
-			fid = ""
-		}
-	case "CListNeg":
-		if !strings.Contains(p.Value, "reflect.MakeSlice: negative len") {
-			fid = ""
-		}
-	case "CScanDest", "CDateShort", "CTypeIdx", "CScannerIdx":
-		if !strings.Contains(p.Value, "index out of range") {
-			fid = ""
-		}
-	case "CMapKey":
-		if !strings.Contains(p.Value, "reflect.MapOf: invalid key type") {
-			fid = ""
-		}
-	case "CScanPanic":
-		if !strings.Contains(p.Value, "not enough bytes in buffer") {
-			fid = ""
-		}
-	case "CGuarded":
-		fid = ""
-	}
 	key := entry + "/" + fid
 	h.kept[key]++
 	if h.kept[key] > 40 && fid != "" {
@@ -90,78 +46,6 @@ func (h *harness) reportPanic(idx int, entry string, p c04lib.Panic, input inter
 		return
 	}
 	h.o.Violate(idx, "panic:"+entry, fid, fmt.Sprintf("%s panicked in %s: %s", entry, p.Func, p.Value), input)
-}
-
-// pkCountTooBig: RESULT/prepared bodies (v4+) whose pk count would make the driver allocate more than
-// 512 KiB are not run in-process (the allocation itself is the finding alloc-prepared-pk-count, tested once).
-// The walk over the flag-announced prefixes is the harness's own (specification order).
-func pkCountTooBig(proto, hflags, op int, body []byte) bool {
-	if op != c04lib.OpResult || proto < 4 {
-		return false
-	}
-	off := 0
-	short := func() (int, bool) {
-		if off+2 > len(body) {
-			return 0, false
-		}
-		v := int(body[off])<<8 | int(body[off+1])
-		off += 2
-		return v, true
-	}
-	rd := func() (int, bool) {
-		if off+4 > len(body) {
-			return 0, false
-		}
-		v := int(int32(uint32(body[off])<<24 | uint32(body[off+1])<<16 | uint32(body[off+2])<<8 | uint32(body[off+3])))
-		off += 4
-		return v, true
-	}
-	str := func() bool {
-		n, ok := short()
-		if !ok || off+n > len(body) {
-			return false
-		}
-		off += n
-		return true
-	}
-	if hflags&0x02 != 0 {
-		off += 16
-	}
-	if hflags&0x08 != 0 {
-		n, ok := short()
-		for i := 0; ok && i < n; i++ {
-			ok = str()
-		}
-		if !ok {
-			return false
-		}
-	}
-	if hflags&0x04 != 0 {
-		n, ok := short()
-		for i := 0; ok && i < n; i++ {
-			if ok = str(); ok {
-				var m int
-				if m, ok = rd(); ok && m > 0 {
-					off += m
-				}
-			}
-		}
-		if !ok {
-			return false
-		}
-	}
-	kind, ok := rd()
-	if !ok || kind != 4 || !str() {
-		return false
-	}
-	if _, ok = rd(); !ok {
-		return false
-	}
-	if _, ok = rd(); !ok {
-		return false
-	}
-	pk, ok := rd()
-	return ok && pk > 1<<16
 }
 
 // sizeTooBig walks a value the way Unmarshal does, up to the first thing Unmarshal would reject, and reports
@@ -214,8 +98,11 @@ func sizeTooBig(proto int, t *c04lib.SType, data []byte, isNil bool) bool {
 		if !ok || n < 0 {
 			return false
 		}
+		if n > limit && t.Kind == c04lib.KMap {
+			return true // unmarshalMap still sizes the map by its count (lists are bounded by the bytes that remain)
+		}
 		if n > limit {
-			return true
+			return false // rejected by unmarshalList before anything is allocated
 		}
 		for i := 0; i < n; i++ {
 			for j := 0; j < len(t.Elems); j++ {
@@ -259,10 +146,6 @@ func sizeTooBig(proto int, t *c04lib.SType, data []byte, isNil bool) bool {
 
 // one body through parseFrame (+ Scan / RowData when it is a rows frame)
 func (h *harness) tryBody(kind string, proto, hver, hflags, op int, body []byte, emit bool) {
-	if pkCountTooBig(proto, hflags, op, body) {
-		h.o.Count("skipped-huge-pk-count")
-		return
-	}
 	out := c04lib.Parse(proto, hver, hflags, op, body)
 	idx := -1
 	if emit {
@@ -409,13 +292,6 @@ func (h *harness) allocSweep(label string, proto, hver, hflags, op int, body []b
 			alloc := allocDelta(func() { c04lib.Parse(proto, hver, hflags, op, c) })
 			h.o.Count("alloc-count-field(monitor-only)")
 			if alloc <= uint64(64*len(c)+4<<20) {
-				continue
-			}
-			if pkCountTooBig(proto, hflags, op, c) {
-				h.kept["alloc-pk"]++
-				if h.kept["alloc-pk"] <= 5 {
-					h.o.Violate(-1, "allocation", "alloc-prepared-pk-count", fmt.Sprintf("a %d-byte PREPARED body (%s) with the partition-key count set to %d made parseFrame allocate %d bytes", len(c), label, v, alloc), hlib.ZList(c))
-				}
 				continue
 			}
 			ok = false
@@ -576,7 +452,7 @@ func main() {
 		o.Extra["alloc_nested_tuple_input"] = len(body)
 		o.Count("alloc-nested-tuple")
 		if alloc > uint64(64*len(body)+4<<20) {
-			o.Violate(-1, "allocation", "alloc-nested-tuple-types", fmt.Sprintf("a %d-byte RESULT body made parseFrame allocate %d bytes", len(body), alloc), hlib.ZList(body))
+			o.Violate(-1, "allocation-out-of-proportion", "", fmt.Sprintf("a %d-byte RESULT body made parseFrame allocate %d bytes", len(body), alloc), hlib.ZList(body))
 		}
 		// a partition-key count of 2^22 in a 19-byte PREPARED body
 		pb := append(append(append(c04lib.EncInt(4), c04lib.EncShortBytes([]byte("x"))...), c04lib.EncInt(0)...), append(c04lib.EncInt(0), c04lib.EncInt(1<<22)...)...)
@@ -584,7 +460,7 @@ func main() {
 		o.Extra["alloc_pk_count_bytes"] = alloc
 		o.Count("alloc-pk-count")
 		if alloc > uint64(64*len(pb)+4<<20) {
-			o.Violate(-1, "allocation", "alloc-prepared-pk-count", fmt.Sprintf("a %d-byte PREPARED body made parseFrame allocate %d bytes", len(pb), alloc), hlib.ZList(pb))
+			o.Violate(-1, "allocation-out-of-proportion", "", fmt.Sprintf("a %d-byte PREPARED body made parseFrame allocate %d bytes", len(pb), alloc), hlib.ZList(pb))
 		}
 		// the well-formed frames of this run: generous linear bound
 		worst := 0.0
@@ -599,7 +475,7 @@ func main() {
 				worst = ratio
 			}
 			if a > uint64(256*len(b)+1<<20) {
-				o.Violate(-1, "allocation", "", fmt.Sprintf("a well-formed %d-byte %s body made parseFrame allocate %d bytes", len(b), resp.Describe(), a), hlib.ZList(b))
+				o.Violate(-1, "allocation-out-of-proportion", "", fmt.Sprintf("a well-formed %d-byte %s body made parseFrame allocate %d bytes", len(b), resp.Describe(), a), hlib.ZList(b))
 			}
 		}
 		o.Extra["alloc_wellformed_worst_bytes_per_input_byte"] = worst
